@@ -128,7 +128,10 @@ class FortranRegularExpressions:
     DEFINED: Pattern = compile(
         r"defined[ ]*(?:\([ ]*([a-z_]\w*)[ ]*\)|[ ]*([a-z_]\w*))", I
     )
-    PP_REGEX: Pattern = compile(r"[ ]*#[ ]*(if |ifdef|ifndef|else|elif|endif)", I)
+    #: ``#if`` may be followed directly by ``(`` or ``!`` e.g. ``#if(defined(X))``
+    PP_REGEX: Pattern = compile(
+        r"[ ]*#[ ]*(if(?=[ (!])|ifdef|ifndef|else|elif|endif)", I
+    )
     PP_DEF: Pattern = compile(
         r"[ ]*#[ ]*(define|undef|undefined)[ ]*(\w+)(\([ ]*([ \w,]*?)[ ]*\))?",
         I,
